@@ -21,7 +21,7 @@ TEXT = {
     "C12": ("Input sweep of Problem.split executed through the multi-process simulation: original unchanged, parts differ in one domain, each part solved by a simulated worker under a step budget, disjoint union equals the reference.", "4/C12"),
     "C13": ("Seeded meaning-preserving rewrites of generated and shipped models; solution sets / optima equal after the inverse renaming. Metamorphic relations with seeded generation, replay and minimisation.", "4/C13"),
     "C15": ("Seeded operation histories in one interpreter compared with clean-room executions, in interpreted and compiled mode, twice.", "4/C15"),
-    "C16": ("Interpreted mode as a bounds-checking executor: any exception from a NuCS frame on an in-contract simulated run is a violation; sizes biased to what scratch arrays are sized from. Monitor-strength claim only.", "4/C16"),
+    "C16": ("Two bounds-checking executors under the same seeded workloads: interpreted mode (any exception from a NuCS frame on an in-contract simulated run is a violation; sizes biased to what scratch arrays are sized from) and the JIT-compiled engine built with numba's bounds checking in a sacrificial interpreter (index errors raised behind function addresses are collected through sys.unraisablehook; death by signal is an abort). Monitor-strength claim only.", "4/C16"),
     "C17": ("Interposed event log of each simulated run; each of the 13 counters must equal the corresponding event count (every documented reading accepted), conservation laws for exhaustive enumeration; per-worker laws and sums through the simulated multiprocessing solver.", "4/C17"),
     "C18": ("Every (worker, death point, death kind) of bounded scenarios is enumerated in the process simulator, seeded sampling beyond; the parent call must return or raise within bounded virtual time - a SimDeadlock is the hang.", "4/C18"),
     "C19": ("Sweep of stack heights x required depths x heuristics x consistency algorithm and of sizes around 2^8/2^16, each point compiled in a sacrificial interpreter and interpreted: error/refusal or reference-equal result.", "4/C19"),
@@ -40,7 +40,7 @@ TECH = {
     "C12": "deterministic simulation (split sweep executed through simulated workers)",
     "C13": "seeded metamorphic rewriting inside the simulator (replayable, minimised)",
     "C15": "deterministic simulation of process histories vs clean-room runs, two execution modes",
-    "C16": "deterministic simulation, interpreted mode as bounds-checking monitor",
+    "C16": "deterministic simulation, interpreted mode and a bounds-checked compiled build as bounds-checking monitors",
     "C17": "deterministic simulation, event-log conservation laws",
     "C18": "fault injection in the process simulator: enumerated crash points + seeded sampling, virtual-time deadlock detection",
     "C19": "fault enumeration of capacity exhaustion (stack height / index widths), compiled in sacrificial subprocesses",
@@ -96,6 +96,7 @@ def main():
             {"name": "e4", "path": "sim/families/e4_history.py", "serves_properties": ["C15"], "kind_free_text": "history-sim: operation sequences vs clean-room, interpreted and compiled"},
             {"name": "e5", "path": "sim/families/e5_capacity.py", "serves_properties": ["C19"], "kind_free_text": "capacity-sim: compiled sacrificial subprocess sweep"},
             {"name": "e6", "path": "sim/families/e6_models.py", "serves_properties": ["C20", "C13"], "kind_free_text": "models-sim: shipped models with validators"},
+            {"name": "e7", "path": "sim/families/e7_boundscheck.py", "serves_properties": ["C16"], "kind_free_text": "compiled bounds-checked executor: the E1 workloads through the JIT-compiled engine with NUMBA_BOUNDSCHECK=1 in a persistent sacrificial interpreter"},
         ],
         "checks": checks,
         "notes": "Technique: deterministic simulation with fault injection (own choice-trace kernel, seeded scheduler, virtual clock, in-process fakes for processes and queue). See DESIGN.md. Fixes of genuine defects are 'fix:' commits in /repo, recorded in known_findings.json ('fixed').",
